@@ -95,6 +95,32 @@ def eval_pair(case):
         K = implementer(I)(type('K', (), {'m': mkfunc(sig_src(0, 0, 1, mkw))}))
         cand = K()
         impl, bound, v = cand.m, False, verifyObject
+    elif kind == 'class-custom-descriptor':
+        # a decorator written as a descriptor class: the plain function on
+        # class access, a bound method on instance access
+        import types as _types
+
+        class Desc:
+            def __init__(s, f):
+                s.f = f
+
+            def __get__(s, inst, owner):
+                return s.f if inst is None else _types.MethodType(s.f, inst)
+        K = implementer(I)(type('K', (), {'m': Desc(mkfunc(sig_src(mr, mo, mva, mkw, self=True)))}))
+        cand = K
+        impl, bound, v = K.m, True, verifyClass
+    elif kind == 'method-bound-twice':
+        # a method object wrapped around another method object: two leading
+        # parameters are taken. Whether the library looks into it at all is
+        # its business; if it does, a conforming one must not be rejected
+        import types as _types
+        if mr < 1:
+            return None, None
+        K = implementer(I)(type('K', (), {}))
+        cand = K()
+        inner = _types.MethodType(mkfunc(sig_src(mr, mo, mva, mkw, self=True)), cand)
+        cand.m = _types.MethodType(inner, object())
+        impl, bound, v = cand.m, False, verifyObject
     elif kind == 'class-noself':
         # verifyClass of a class whose method takes its instance through *args
         if mr or mo or not mva:
@@ -128,6 +154,8 @@ def eval_pair(case):
         got = False
     except Invalid as e:
         return ('unexpected-exception', type(e).__name__), exp
+    if case[2] == 'method-bound-twice' and got and not exp:
+        return None, exp        # not looked into: acceptable
     if exp != got:
         return ('accepts' if got else 'rejects', 'iface(%s)' % sig_src(ir, io, iva, ikw),
                 'impl(%s)' % sig_src(mr, mo, mva, mkw, kind not in ('func-attr', 'staticmethod-on-provider', 'staticmethod-class', 'staticmethod-inherited-class')), case[2]), exp
@@ -313,6 +341,7 @@ def run(ctx):
     cases = [('pair', (a, b, k, big)) for a in GRID for b in GRID
              for k in ('func-attr', 'method', 'class', 'staticmethod-on-provider', 'method-noself',
                        'staticmethod-class', 'staticmethod-inherited-class', 'class-noself',
+                       'class-custom-descriptor', 'method-bound-twice',
                        'method/description-of-a-Method-subclass',
                        'method/description-named-differently')]
     for r in range(0, len(DEFECTS) + 1):
@@ -338,5 +367,5 @@ def run(ctx):
     ctx.sample(dict(reuse=cases[-5][1], fields='(interface signature, implementation signature (+self), the two roles in which the same function object is verified, in order)'))
     return finish(
         ctx, 'model_checking',
-        'all pairs of interface-method and implementation signatures in the grid x 10 candidate kinds (functions stored on instances, methods, classes under verifyClass, own and inherited staticmethods, instances taken through *args, descriptions that are instances of a Method subclass or carry another name than their key), decided by binding every call shape the interface admits with inspect.signature; all 2^8 subsets of defects x tentative x verifyObject/verifyClass compared with the exact expected list of failures',
+        'all pairs of interface-method and implementation signatures in the grid x 12 candidate kinds (functions stored on instances, methods, classes under verifyClass, own and inherited staticmethods, instances taken through *args, descriptions that are instances of a Method subclass or carry another name than their key), decided by binding every call shape the interface admits with inspect.signature; all 2^8 subsets of defects x tentative x verifyObject/verifyClass compared with the exact expected list of failures',
         'complete Cartesian products; states = cases')
